@@ -163,6 +163,62 @@ func checkC03(c *Ctx) {
 			c.decide("DOM-wrong-kind", "GetNonMembershipProof builds neighbour proof", l.ipos(in), guardsEffect(gs, in), "only after the key was found absent", "a neighbour proof is built without the absence test")
 		}
 	}
+	// ---- proofs are computed from this tree only
+	c.rule("OWN-proof-from-tree", "proof construction never consults the fast index; versioned proofs use the committed snapshot", 6)
+	getFast := l.Func("", "*nodeDB.GetFastNode")
+	if getFast == nil {
+		c.anchorMissing("OWN-proof-from-tree", "nodeDB.GetFastNode")
+	} else {
+		idx := l.newReach(predStatic(getFast))
+		for _, name := range []string{"*ImmutableTree.GetProof", "*ImmutableTree.GetMembershipProof", "*ImmutableTree.GetNonMembershipProof", "*ImmutableTree.createExistenceProof", "*MutableTree.GetVersionedProof"} {
+			fn := l.Func("", name)
+			if fn == nil {
+				c.anchorMissing("OWN-proof-from-tree", name)
+				continue
+			}
+			var bad ssa.Instruction
+			allInstrs(fn, func(in ssa.Instruction) {
+				if callCommon(in) == nil || bad != nil {
+					return
+				}
+				// calls into the other proof functions are judged there
+				if g := staticCallee(callCommon(in)); g != nil && strings.Contains(g.Name(), "Proof") {
+					return
+				}
+				if idx.Instr(in) {
+					bad = in
+				}
+			})
+			msg := ""
+			if bad != nil {
+				msg = "the proof path consults the fast index through " + l.calleeName(bad) + ": the index describes the latest saved version, not this tree (working tree, older versions), so the proof kind / value can be wrong"
+			}
+			pos := l.pos(fn.Pos())
+			if bad != nil {
+				pos = l.ipos(bad)
+			}
+			c.decide("OWN-proof-from-tree", l.fname(fn)+" does not read the index", pos, bad == nil, "decisions and values come from walking this tree", msg)
+		}
+		gvp := l.Func("", "*MutableTree.GetVersionedProof")
+		gim := l.Func("", "*MutableTree.GetImmutable")
+		gp := l.Func("", "*ImmutableTree.GetProof")
+		if gvp != nil && gim != nil && gp != nil {
+			ok := true
+			why := ""
+			calls := callsIn(gvp, predStatic(gp))
+			if len(calls) == 0 {
+				ok, why = false, "GetVersionedProof no longer calls GetProof"
+			}
+			for _, in := range calls {
+				recv := stripTrivial(callCommon(in).Args[0])
+				if !isResultOf(predStatic(gim), 0)(recv) {
+					ok, why = false, "the proof is taken from `"+roleOf(l, recv, "", 0)+"`, not from the snapshot returned by GetImmutable(version): with uncommitted writes the proof is bound to the working root"
+				}
+			}
+			c.decide("OWN-proof-from-tree", "GetVersionedProof proves on the GetImmutable snapshot", l.pos(gvp.Pos()), ok, "receiver of GetProof is the GetImmutable result", why)
+		}
+	}
+
 	// ---- ERR
 	ea := newErrAnalysis(c, l)
 	proofFns := map[string]bool{"createExistenceProof": true, "GetMembershipProof": true, "GetNonMembershipProof": true, "GetProof": true, "GetVersionedProof": true}
